@@ -690,5 +690,6 @@ WHERE
 	indexColumnsQuery = "SELECT name, desc FROM pragma_index_xinfo('%s') WHERE key = 1 ORDER BY seqno"
 	// Query to list table foreign-keys.
 	// A foreign-key that was defined without parent columns (e.g. REFERENCES t) references the primary-key of its parent.
-	fksQuery = "SELECT fk.`id`, fk.`from`, COALESCE(fk.`to`, (SELECT ti.`name` FROM pragma_table_info(fk.`table`) AS ti WHERE ti.`pk` = fk.`seq` + 1)), fk.`table`, fk.`on_update`, fk.`on_delete` FROM pragma_foreign_key_list('%s') AS fk ORDER BY fk.`id`, fk.`seq`"
+	// The parent table is returned the way it was named on creation, as SQLite resolves it regardless of its letter case.
+	fksQuery = "SELECT fk.`id`, fk.`from`, COALESCE(fk.`to`, (SELECT ti.`name` FROM pragma_table_info(fk.`table`) AS ti WHERE ti.`pk` = fk.`seq` + 1)), COALESCE((SELECT m.`name` FROM sqlite_master AS m WHERE m.`type` = 'table' AND m.`name` = fk.`table` COLLATE NOCASE), fk.`table`), fk.`on_update`, fk.`on_delete` FROM pragma_foreign_key_list('%s') AS fk ORDER BY fk.`id`, fk.`seq`"
 )
